@@ -26,7 +26,7 @@ echo "== repo tests with the change" >> "$res"
 (cd "$W" && go build ./... && go test -vet=off -count=1 $(go list ./... | grep -v seed_demo)) >> "$res" 2>&1; t_with=$?
 echo "== demo with the change" >> "$res"
 RACE=""; grep -qsi "go test -race" "$W"/seed_demo/NOTES.md && RACE="-race"
-tags=""; grep -qs "go:build seeddemo" "$W"/seed_demo/*.go && tags="-tags seeddemo"; grep -qs "go:build seed_demo" "$W"/seed_demo/*.go && tags="-tags seed_demo"
+tags=""; grep -qs "go:build seeddemo" "$W"/seed_demo/*.go && tags="-tags seeddemo"; grep -qs "go:build seed_demo" "$W"/seed_demo/*.go && tags="-tags seed_demo"; grep -qs "go:build verif" "$W"/seed_demo/*.go && tags="-tags verif"
 if ls "$W"/seed_demo/*_test.go >/dev/null 2>&1; then demo="go test $tags $RACE -vet=off -count=1 ./seed_demo/"; else demo="go run $tags ./seed_demo/"; fi
 (cd "$W" && timeout 600 $demo) >> "$res" 2>&1; d_with=$?
 git -C "$W" apply -R "$SD/patch.diff"
